@@ -16,7 +16,7 @@
    (returned as-is by _to_python_value: not a Python primitive), an int whose text is not a decimal literal,
    an ENUM field of the dict schema whose allowed values could be a prefix-match of a dataclass repr.
    ORACLES (inputs computed by the real Python, never axioms): float(text) of float literals, the Cst oracles per
-   (validated block, field), str.isspace, validate_frontmatter(raw_frontmatter, schema). *)
+   (validated block, field), str.isspace, validate_frontmatter(raw, schema) on frontmatter that is not absent/blank. *)
 From OV Require Import Base.Strs Cst.Lits Cst.PyVal Cst.Constraints Cst.Chain Cst.Validator Syn.Ast Syn.Emitter
      Gen.ConstraintsGen Gen.ValidateGen.
 From Coq Require Import ZArith.
@@ -153,7 +153,8 @@ Record sdef := mksdef {
   sd_routes : list (str * option str);         (* the fields that have a pattern, with the pattern's explicit target *)
   sd_default_target : option str;              (* POLICY.DEFAULT_TARGET *)
   sd_policy_targets : list str;                (* POLICY.TARGETS *)
-  sd_has_fm : bool }.                          (* the schema defines frontmatter fields *)
+  sd_has_fm : bool;                            (* the schema defines frontmatter fields *)
+  sd_fm_required : list str }.                 (* names of its REQUIRED frontmatter fields, in order *)
 
 Definition not_builtin (t : str) : bool := negb (str_in t vt_target_builtins).
 Definition customs_of (sd : sdef) (bt : list (str * str)) : list str :=
@@ -298,7 +299,21 @@ Record oracles := mkoracles {
   or_fl : str -> fl;                              (* float(text) of a float literal, as an exact value *)
   or_field : N -> str -> orc;                     (* Cst oracles of field f in the i-th validated block *)
   or_sp : N -> bool;                              (* str.isspace *)
-  or_fm : option str -> list (str * str) }.       (* validate_frontmatter(doc.raw_frontmatter, schema) *)
+  or_fm : str -> list (str * str) }.              (* validate_frontmatter(raw, schema) for a raw text that is NOT taken as absent
+                                                     (YAML parsing, field types) *)
+
+(* validate_frontmatter: the ABSENT branch is modelled (each required field -> code, prefix ++ name), and so is the decision WHEN it is
+   taken: no frontmatter, or -- when the source says so (vt_fm_blank_is_absent, regenerated on every run) -- a whitespace-only block
+   (`not raw_frontmatter.strip()`, sp = str.isspace).  Everything else goes to the oracle. *)
+Definition fm_absent_errors (sd : sdef) : list (str * str) :=
+  map (fun n => (vt_fm_absent_code, vt_fm_absent_prefix ++ n)) (sd_fm_required sd).
+Definition fm_errors (o : oracles) (sd : sdef) (front : option str) : list (str * str) :=
+  if sd_has_fm sd then
+    match front with
+    | None => fm_absent_errors sd
+    | Some t => if vt_fm_blank_is_absent && forallb (or_sp o) t then fm_absent_errors sd else or_fm o t
+    end
+  else [].
 
 Definition validator_errors (o : oracles) (bm : option mschema) (strict : bool) (ss : option sdef) (d : doc)
   : option (list (str * str)) :=
@@ -311,7 +326,7 @@ Definition validator_errors (o : oracles) (bm : option mschema) (strict : bool) 
            | None => Some []
            end in
   let f := match ss with
-           | Some sd => if sd_has_fm sd then or_fm o (dfront d) else []
+           | Some sd => fm_errors o sd (dfront d)
            | None => []
            end in
   match m, s with
